@@ -92,6 +92,12 @@ fn c09_ver_version() {
     let (meta, explicit, has_nonce, has_tag) = any_meta();
     let r = ManuallyDrop::new(chunk_aad_version(&meta));
     let want = spec_version(explicit, has_nonce, has_tag);
+    // (Kani assumes an assertion after checking it: most specific obligation first.)
+    if let Some(x) = explicit {
+        if x != CHUNK_AAD_LEGACY && x != CHUNK_AAD_BOUND {
+            assert!(r.is_err(), "OBL:C09.ver.unknown_rejected");
+        }
+    }
     match &*r {
         Ok(v) => {
             assert!(
@@ -110,11 +116,6 @@ fn c09_ver_version() {
         Err(_) => {
             // rejects ONLY an explicit unknown version (a known/absent one must resolve)
             assert!(want.is_none(), "OBL:C09.ver.rejects_only_unknown");
-        }
-    }
-    if let Some(x) = explicit {
-        if x != CHUNK_AAD_LEGACY && x != CHUNK_AAD_BOUND {
-            assert!(r.is_err(), "OBL:C09.ver.unknown_rejected");
         }
     }
     kani::cover!(matches!(&*r, Ok(v) if *v == CHUNK_AAD_LEGACY), "COVER:legacy");
